@@ -126,7 +126,7 @@ def advertise_and_judge(ctx, radio, b, mac, pa, name, chunks, single, what=""):
     ctx.observe("pkt", pkt[:len(want) + 3])
 
 
-def o1_advertise(ctx, name_kind, name_len, pa, mac_kind, chunk_lens, single):
+def o1_advertise(ctx, name_kind, name_len, pa, mac_kind, chunk_lens, single, pa_after_show=False):
     rnd = []
 
     def urandom(n):
@@ -156,7 +156,7 @@ def o1_advertise(ctx, name_kind, name_len, pa, mac_kind, chunk_lens, single):
         elif name_kind == "str":
             name = ctx.str("name", name_len, 32, 126)
         pa_val = None
-        if pa is not None:
+        if pa is not None and not pa_after_show:
             b.pa_level = pa
         try:
             b.name = name
@@ -169,6 +169,8 @@ def o1_advertise(ctx, name_kind, name_len, pa, mac_kind, chunk_lens, single):
             try:
                 b.show_pa_level = True
                 ctx.check(name is None or name_len <= 16, "show_pa_level must be refused when there is no room")
+                if pa_after_show:
+                    b.pa_level = pa  # the field must announce the level in effect when the advertisement is made
                 pa_val = pa
             except ValueError:
                 ctx.check(name is not None and name_len > 16, "ValueError only when the name leaves no room for the PA level")
@@ -186,7 +188,7 @@ def o1_advertise(ctx, name_kind, name_len, pa, mac_kind, chunk_lens, single):
     ctx.reached()
 
 
-CH_OPS = ("hop", "channel", "reenter", "other_ble", "channel_invalid", "foreign_retune_then_channel")
+CH_OPS = ("hop", "channel", "reenter", "other_ble", "channel_invalid", "foreign_retune_then_channel", "advertise_short")
 
 
 def o2_sync(ctx, ops):
@@ -212,6 +214,9 @@ def o2_sync(ctx, ops):
             for _ in range(1 + ctx.choice("foreign_hops%d" % i, 2)):
                 other.hop_channel()
             b.channel = (2, 26, 80)[ctx.choice("freq%d" % i, 3)]
+        elif op == "advertise_short":
+            # an earlier, shorter advertisement on the same object (whatever it leaves behind must not affect the next one)
+            advertise_and_judge(ctx, radio, b, blist(b.mac), None, None, [], (b"", 0xFF), "earlier short advertisement: ")
         elif op == "reenter":
             b.__exit__()
             b.__enter__()
@@ -248,6 +253,9 @@ def jobs(tier):
                     continue
                 out.append(Job("O1-advertise-single-chunk", o1_advertise,
                                dict(name_kind=kind, name_len=nl, pa=pa, mac_kind="bytes", chunk_lens=[cl], single=True), cost=3))
+    for pa in (-18, -12, -6):
+        out.append(Job("O1-advertise-pa-set-after-show", o1_advertise, dict(name_kind="bytes", name_len=2, pa=pa, mac_kind="bytes",
+                                                                            chunk_lens=[3], single=True, pa_after_show=True), cost=3))
     for mk in ("int", "none"):
         out.append(Job("O1-advertise-mac-forms", o1_advertise, dict(name_kind="bytes", name_len=3, pa=None, mac_kind=mk,
                                                                    chunk_lens=[4], single=True), cost=3))
